@@ -32,6 +32,17 @@ It should work as `ObjectCache` in code do not depends on acquire/release API.
 #pragma GCC diagnostic push
 #pragma GCC diagnostic ignored "-Wdeprecated-declarations"
 
+#ifdef PHOTON_VERIF
+// verification hook (C19): called by a Borrow that gives up its box, between `_box->release()` and
+// the following read of `_box->rc`; a weak, zero-initialised pointer (this is a header-only class), so
+// without a harness that defines it strongly the behaviour is unchanged
+extern "C" { __attribute__((weak)) void (*photon_verif_c19_borrow_window)(void* box); }
+#define PHOTON_VERIF_C19_BORROW_WINDOW(box) \
+    do { if (photon_verif_c19_borrow_window) photon_verif_c19_borrow_window(box); } while (0)
+#else
+#define PHOTON_VERIF_C19_BORROW_WINDOW(box)
+#endif
+
 template <typename K, typename VPtr>
 class ObjectCacheV2 {
 protected:
@@ -165,6 +176,7 @@ public:
                 if (_box) {
                     if (_recycle) _box->reset();
                     _box->release();
+                    PHOTON_VERIF_C19_BORROW_WINDOW(_box);
                     if (_box->rc == 0) {
                         SCOPED_LOCK(_oc->maplock);
                         _oc->lru_list.pop(_box);
@@ -187,6 +199,7 @@ public:
                 _box->reset();
             }
             _box->release();
+            PHOTON_VERIF_C19_BORROW_WINDOW(_box);
             if (_box->rc == 0) {
                 SCOPED_LOCK(_oc->maplock);
                 _oc->lru_list.pop(_box);
